@@ -46,6 +46,9 @@ func genBWorld(r *Rng, faulty bool) (*BWorld, []BOp) {
 		if r.Chance(40) {
 			p.HasMeta = true
 			p.MetaCommit = fmt.Sprintf("%040x", r.Next())
+			if r.Chance(15) {
+				p.MetaCommit = "" // metadata without a commit id (only a message)
+			}
 			p.MetaMsg = r.Pick([]string{"", "fix things", "initial\ncommit é"})
 		}
 		if faulty && r.Chance(12) {
